@@ -1722,6 +1722,12 @@ func ruleStoredDAHeightsProvenance(c *Check, p *Prog) {
 			return keyPattern(k.Args[0]) + keyPattern(k.Args[1]) // a key built by concatenation
 		case k.Op == "phi":
 			return "%v"
+		case k.Op == "call" && !k.IsCall("fmt.Sprintf"):
+			// a key built by a helper of the package: what the helper returns for these arguments
+			if rs := p.ReturnTerms(k); len(rs) == 1 {
+				return keyPattern(rs[0])
+			}
+			return "%v"
 		}
 		if !k.IsCall("fmt.Sprintf") || len(k.Args) == 0 || k.Args[0].unconv().Op != "const" {
 			return "%v"
